@@ -315,6 +315,38 @@ theorem go_receiver_private_generated (m : Mem) (h : Owns m) (fr : Nat) (recv : 
   have := go_args_private m h fr (recv :: args) ops hothers 0 (by simp)
   simpa using this
 
+/-- FULL, EVERY ARM AND EVERY KIND (facts read from the operand loops of call's two go branches and of callBin's): the
+    go statement copies an argument of ANY kind — chan, func, map, pointer and unsafe pointer included — for a
+    declared function, for a function value (literal, closure variable, method value) and for a host callee -/
+theorem go_operand_copied_all_arms_all_kinds (arm : GoArm) (k : ArgKind) :
+    Generated.C08.goFacts.copiedAt arm k = true := by
+  rw [gofacts_tie]
+  cases arm <;> cases k <;> decide
+
+/-- FULL: for every arm and every list of argument kinds, the goroutine keeps seeing the argument values of the moment
+    of the go statement whatever the other frames (the spawning loop that reassigns `ch`, `p`, `m`, `f`) do afterwards -/
+theorem go_args_private_kinds (arm : GoArm) (kinds : List ArgKind) (m : Mem) (h : Owns m) (fr : Nat) (args : List Nat)
+    (ops : List Op) (hothers : ∀ op ∈ ops, op.frame ≠ m.frames.length) (j : Nat) (hj : j < args.length) :
+    read (runOps (Generated.C08.goFacts.allCopied arm kinds) ops
+            (stepOp (Generated.C08.goFacts.allCopied arm kinds) m (.call fr args))) m.frames.length j
+      = read m fr (args.getD j 0) := by
+  have : Generated.C08.goFacts.allCopied arm kinds = true := by
+    unfold GoFacts.allCopied
+    rw [List.all_eq_true]
+    intro k _
+    exact go_operand_copied_all_arms_all_kinds arm k
+  rw [this]
+  exact go_args_private m h fr args ops hothers j hj
+
+/-- WHAT A KIND-DEPENDENT RULE WOULD ALLOW: facts in which the function-value arm names `reflect.Chan` (reference kinds
+    passed without copy) — the operand is not private, and the goroutine sees the channel assigned by the next iteration -/
+theorem go_reference_kind_exception_witness :
+    let g : GoFacts := { Expected.C08.goFacts with goValueArgKinds := ["reflect.Chan", "reflect.Ptr"] }
+    g.copiedAt .funcValue .chan = false ∧ g.copiedAt .funcValue .ptr = false ∧ g.copiedAt .funcValue .int = true ∧
+    (let m : Mem := { cells := [10], owner := [0], frames := [[0]] }
+     read (runOps (g.allCopied .funcValue [.chan]) [.write 0 0 20] (stepOp (g.allCopied .funcValue [.chan]) m (.call 0 [0]))) 1 0 = 20) := by
+  decide
+
 /-- REGRESSION EXAMPLES / WHAT THE OLD FACTS ALLOWED (F08-2: callBin's go branch passed the frame values; F08-4: the
     receiver was read inside the wrapper's callback): an operand that is not copied at the go statement shows the
     parent's later assignment (`y := 10; go m.Store("k", y); y = 20` stored 20; `go accs[w].run()` in a loop ran the
